@@ -854,6 +854,25 @@ class AgreeHarness:
             out["error"] = "%s: %s" % (type(exc).__name__, str(exc)[:200])
         return self._end(out)
 
+    def refresh(self, wait_ticks, timeline, per_call, query_timeout_ticks=None):
+        """Cluster.refresh_schema_metadata([max_schema_agreement_wait=per_call ticks]) -> {"outcome": True when it
+        returned (the schema was refreshed), False when it raised DriverException (not refreshed)}."""
+        self._begin(wait_ticks, timeline, None, query_timeout_ticks)
+        out = {"error": None}
+        try:
+            if per_call is None:
+                self.cluster.refresh_schema_metadata()
+            else:
+                self.cluster.refresh_schema_metadata(max_schema_agreement_wait=per_call * TICK)
+            out["outcome"] = True
+        except ccluster.DriverException as exc:
+            out["outcome"] = False
+            out["error"] = str(exc)[:200]
+        except Exception as exc:
+            out["outcome"] = "raised"
+            out["error"] = "%s: %s" % (type(exc).__name__, str(exc)[:200])
+        return self._end(out)
+
     def shutdown(self):
         try:
             self.cluster.shutdown()
@@ -861,8 +880,10 @@ class AgreeHarness:
             pass
 
 
-def agree_trace(harnesses, mode, wait_ticks, timeline, fault_at_poll=None, query_timeout_ticks=None):
+def agree_trace(harnesses, mode, wait_ticks, timeline, fault_at_poll=None, query_timeout_ticks=None, per_call=-1):
     """Run the real wait once on a scripted timeline; returns (trace for Trace_ControlAgree.tla, raw observation).
+    mode "refresh" = Cluster.refresh_schema_metadata, with max_schema_agreement_wait=per_call ticks unless per_call
+    is -1; wait_ticks is always the cluster-wide Cluster.max_schema_agreement_wait.
     With `fault_at_poll` = k the k-th poll (0-based) is answered by closing the connection the wait runs on: an
     exception escapes from the wait (event Abort); the harness used is replaced by a fresh one afterwards.
     A timeline entry whose snapshot is None is a period in which the node does not answer the schema-version queries
@@ -871,11 +892,14 @@ def agree_trace(harnesses, mode, wait_ticks, timeline, fault_at_poll=None, query
     completed without a scripted fault."""
     key = "nometa" if mode in ("direct", "ddl_nometa") else "meta"
     h = harnesses[key]
-    if mode == "direct":
+    given = mode == "refresh" and per_call != -1          # -1: no per-call wait is passed (mode "refresh" only)
+    if mode == "refresh":
+        got = h.refresh(wait_ticks, timeline, per_call if given else None, query_timeout_ticks)
+    elif mode == "direct":
         got = h.direct(wait_ticks, timeline, fault_at_poll, query_timeout_ticks)
     else:
         got = h.ddl(wait_ticks, timeline, fault_at_poll, query_timeout_ticks)
-    tr = [{"e": "Start", "wait": wait_ticks, "mode": mode}]
+    tr = [{"e": "Start", "mode": mode, "cw": wait_ticks, "given": given, "pc": per_call if given else 0}]
     lost = False
     for p in got["polls"]:
         s = p["snap"]
@@ -916,6 +940,8 @@ def agree_signature(trace, rejected_at):
         if mode == "direct":
             return "agree:direct:returned-%s-although-the-wait-was-cut-short" % ev["v"]
         return "agree:%s:is_schema_agreed-%s-after-the-wait-raised" % (mode, {"yes": "True", "no": "False"}.get(ev["v"], ev["v"]))
+    if ev["e"] in ("Poll", "PollLost") and trace[0].get("given") and ev["at"] >= trace[0]["pc"]:
+        return "agree:%s:polled-beyond-the-per-call-wait-of-%s" % (mode, "zero" if trace[0]["pc"] == 0 else "the-call")
     if ev["e"] == "Poll":
         if polls and _uniform(polls[-1]["snap"]):
             return "agree:%s:polled-after-agreement" % mode
@@ -932,3 +958,58 @@ def agree_signature(trace, rejected_at):
             return "agree:%s:%s-False-instead-of-True" % (mode, what)
         return "agree:%s:gave-up-before-the-wait-elapsed" % mode
     return "agree:%s:%s" % (mode, ev["e"])
+
+
+# ====================================================================== C42: concurrent refreshes (ControlRefreshConc.tla)
+def concurrent_refresh(new_peers, schedule, rng=None):
+    """Two logical threads (DetSched) run ControlConnection.refresh_node_list_and_token_map concurrently on one cluster
+    whose tables have just begun to describe `new_peers`.  Metadata._hosts_lock is a DRLock: every acquisition is a
+    yield point - in particular the one inside Metadata.add_or_return_host.
+    schedule = ("pause", first, k): thread `first` runs to its k-th yield point, the other thread runs to completion,
+    then `first` finishes;  ("random",): a seeded random interleaving;  ("count",): returns the number of yield points
+    of one refresh.  Returns the projection of the cluster afterwards (see RefreshHarness.project)."""
+    from harness.sim.detsched import DetSched, DRLock
+    peers = sorted(new_peers)
+    h = RefreshHarness(peers)
+    snap0 = {"local": {"loc": "a", "tok": 1}, "info": [{"loc": "a", "tok": 1} for _ in peers],
+             "shape": ["absent" for _ in peers], "ctlDup": False}
+    h.refresh({"snap": snap0, "rows": [], "force": False})
+    rows = [{"ep": p, "miss": "none", "info": {"loc": "a", "tok": 1}} for p in peers]
+    snap1 = dict(snap0, shape=["valid" for _ in peers])
+    h.install({"snap": snap1, "rows": rows, "force": False})
+    del h.listener.events[:]
+    del h.lbp.events[:]
+    sched = DetSched()
+    h.cluster.metadata._hosts_lock = DRLock("hosts")
+    cc = h.cluster.control_connection
+    out = {"error": None, "yields": None}
+    try:
+        if schedule[0] == "count":
+            sched.spawn("T1", cc.refresh_node_list_and_token_map)
+            n = 0
+            while sched.step("T1") != "end":
+                n += 1
+            out["yields"] = n
+        else:
+            sched.spawn("T1", cc.refresh_node_list_and_token_map)
+            sched.spawn("T2", cc.refresh_node_list_and_token_map)
+            if schedule[0] == "pause":
+                first, k = schedule[1], schedule[2]
+                other = "T2" if first == "T1" else "T1"
+                for _ in range(k):
+                    if sched.threads[first].done or sched.step(first) == "end":
+                        break
+                sched.finish(other)
+                if not sched.threads[first].done:
+                    sched.finish(first)
+            else:
+                sched.run_random(rng)
+    except Exception as exc:
+        out["error"] = "%s: %s" % (type(exc).__name__, str(exc)[:200])
+    finally:
+        sched.close()
+    proj = h.project(out["error"] is None, False, None)
+    proj["yields"] = out["yields"]
+    proj["error"] = out["error"]
+    h.shutdown()
+    return proj
